@@ -1,0 +1,139 @@
+//go:build verif
+
+package proxy
+
+import (
+	"encoding/json"
+	"net"
+	"sync"
+	"time"
+
+	"github.com/hashicorp/memberlist"
+	"go.temporal.io/server/api/adminservice/v1"
+	"go.temporal.io/server/client/history"
+	"go.temporal.io/server/common/log"
+)
+
+// Schedule points and delegate entry points for the /verif harness (build tag "verif" only).
+
+var (
+	verifMu           sync.RWMutex
+	verifPointHandler func(name string)
+	verifBroadcastTap func(node string, data []byte)
+)
+
+// VerifSetPointHandler installs a handler called at every schedule point (it may block to control interleavings).
+func VerifSetPointHandler(h func(name string)) {
+	verifMu.Lock()
+	verifPointHandler = h
+	verifMu.Unlock()
+}
+
+func verifPoint(name string) {
+	verifMu.RLock()
+	h := verifPointHandler
+	verifMu.RUnlock()
+	if h != nil {
+		h(name)
+	}
+}
+
+// VerifSetBroadcastTap captures ownership announcements instead of sending them through memberlist.
+func VerifSetBroadcastTap(tap func(node string, data []byte)) {
+	verifMu.Lock()
+	verifBroadcastTap = tap
+	verifMu.Unlock()
+}
+
+// verifTapBroadcast builds the announcement exactly as broadcastShardChange does (type, node, shard, stamped
+// with the time of the broadcast) and hands it to the tap.
+func verifTapBroadcast(sm *shardManagerImpl, msgType string, shard history.ClusterShardID) bool {
+	verifMu.RLock()
+	tap := verifBroadcastTap
+	verifMu.RUnlock()
+	if tap == nil || sm.memberlistConfig == nil {
+		return false
+	}
+	msg := ShardMessage{Type: msgType, NodeName: sm.GetNodeName(), ClientShard: shard, Timestamp: time.Now()}
+	data, err := json.Marshal(msg)
+	if err != nil {
+		return true
+	}
+	tap(sm.GetNodeName(), data)
+	return true
+}
+
+func verifImpl(sm ShardManager) *shardManagerImpl { return sm.(*shardManagerImpl) }
+
+// VerifSetupCallbacks wires the callbacks Start() would wire and marks the manager started, without memberlist.
+func VerifSetupCallbacks(sm ShardManager) {
+	i := verifImpl(sm)
+	i.SetupCallbacks()
+	i.mutex.Lock()
+	i.started = true
+	i.mutex.Unlock()
+}
+
+func VerifNotifyMsg(sm ShardManager, data []byte)         { verifImpl(sm).delegate.NotifyMsg(data) }
+func VerifMergeRemoteState(sm ShardManager, buf []byte)   { verifImpl(sm).delegate.MergeRemoteState(buf, false) }
+func VerifLocalState(sm ShardManager) []byte              { return verifImpl(sm).delegate.LocalState(false) }
+func VerifNotifyLeave(sm ShardManager, nodeName string) {
+	(&shardEventDelegate{manager: verifImpl(sm), logger: log.NewNoopLogger()}).NotifyLeave(&memberlist.Node{Name: nodeName, Addr: net.IPv4(127, 0, 0, 1)})
+}
+
+// VerifLocalShardCreated returns the local shard table with registration times.
+func VerifLocalShardCreated(sm ShardManager) map[string]time.Time {
+	i := verifImpl(sm)
+	i.mutex.RLock()
+	defer i.mutex.RUnlock()
+	out := make(map[string]time.Time, len(i.localShards))
+	for k, v := range i.localShards {
+		out[k] = v.Created
+	}
+	return out
+}
+
+// VerifRemoteNodeStates returns node -> shard keys as last merged.
+func VerifRemoteNodeStates(sm ShardManager) map[string][]string {
+	i := verifImpl(sm)
+	i.remoteNodeStatesMu.RLock()
+	defer i.remoteNodeStatesMu.RUnlock()
+	out := map[string][]string{}
+	for n, st := range i.remoteNodeStates {
+		l := []string{}
+		for k := range st.Shards {
+			l = append(l, k)
+		}
+		out[n] = l
+	}
+	return out
+}
+
+// VerifRegisterIntraSender registers an intra-proxy server stream towards a peer (what intraProxyStreamSender.Run does).
+func VerifRegisterIntraSender(sm ShardManager, peer string, target, source history.ClusterShardID,
+	stream adminservice.AdminService_StreamWorkflowReplicationMessagesServer) {
+	mgr := verifImpl(sm).intraMgr
+	mgr.RegisterSender(peer, target, source, &intraProxyStreamSender{logger: log.NewNoopLogger(), shardManager: sm,
+		peerNodeName: peer, targetShardID: target, sourceShardID: source, sourceStreamServer: stream})
+}
+
+// VerifDesiredPeerStreams recomputes the desired receiver / sender key sets exactly as ReconcilePeerStreams does
+// is not possible without duplicating it; instead the current peer tables are exposed for comparison.
+func VerifPeerStreamKeys(sm ShardManager) (receivers, senders map[string][]string) {
+	receivers, senders = map[string][]string{}, map[string][]string{}
+	mgr := verifImpl(sm).intraMgr
+	if mgr == nil {
+		return
+	}
+	mgr.streamsMu.RLock()
+	defer mgr.streamsMu.RUnlock()
+	for peer, ps := range mgr.peers {
+		for k := range ps.receivers {
+			receivers[peer] = append(receivers[peer], ClusterShardIDtoShortString(k.targetShard)+"<-"+ClusterShardIDtoShortString(k.sourceShard))
+		}
+		for k := range ps.senders {
+			senders[peer] = append(senders[peer], ClusterShardIDtoShortString(k.targetShard)+"<-"+ClusterShardIDtoShortString(k.sourceShard))
+		}
+	}
+	return
+}
